@@ -6,7 +6,7 @@ Engine E5: the Go client library and toxiproxy-cli against a live server.
   env / same / busy / variant …          as E4 (address tables)
   clivariant legacy|fixed
   c create <n> <l> <u> | c get <n> | c save <n> <l> <u> <en> <created> | c delete <n>
-  c toxics <n> | c proxies | c reset
+  c toxics <n> | c proxies | c reset | c populate (<n> <l> <u> <en>)*
   c add|cadd <p> <name|-> <type|-> <stream|-> <tox n/d|-> <attrs value tokens>
   c upd|cupd <p> <name> <tox n/d|-> <attrs value tokens>
   c rm|crm <p> <name>
@@ -116,6 +116,15 @@ def step (st : State) (line : String) : State × String :=
   | ["c", "toxics", n] => finish st (run v e s (.toxics n))
   | ["c", "proxies"] => finish st (run v e s .proxies)
   | ["c", "reset"] => finish st (run v e s .reset)
+  | "c" :: "populate" :: rest =>
+    -- c populate (<name> <listen> <upstream> <enabled 0|1>)*
+    let rec entries : List String → Option (List CProxy)
+      | [] => some []
+      | n :: l :: u :: en :: more => (entries more).map (⟨n, l, u, en == "1", false⟩ :: ·)
+      | _ => none
+    (match entries rest with
+     | some ps => finish st (run v e s (.populate ps))
+     | none => (st, "bad-op"))
   | "c" :: kind :: p :: n :: t :: sm :: tox :: attrs =>
     if kind == "add" || kind == "cadd" then
       match parseFrac tox, parseAttrs attrs with
